@@ -42,7 +42,178 @@ CCS_ZERO = ("        f.seek(old_extra_lease_offset)\n"
             "        f.write(b'\\x00' * leases_size)\n"
             "        f.flush()\n")
 
+# ---- seeded C24-I (a slip of ANOTHER property): _evaluate_write_vectors / _allocate_slot_share tidied - any() pre-checks,
+# tuple-unpacking loop with an early continue, make_dirs hoisted.  The byte-array behaviour is untouched by the faithful forms.
+SIZE_COMMENT = ("        # Refuse the whole request before touching any share if one of its\n"
+                "        # writes cannot fit: otherwise the shares written before the\n"
+                "        # oversized one would stay modified although the request failed.\n")
+SIZE_CHECK = ("        for sharenum in test_and_write_vectors:\n"
+              "            (testv, datav, new_length) = test_and_write_vectors[sharenum]\n"
+              "            for (offset, data) in datav:\n"
+              "                if offset + len(data) > MutableShareFile.MAX_SIZE:\n"
+              "                    raise DataTooLargeError()\n")
+RMDIR_COMMENT = ("                # delete bucket directories that exist but are empty.  They\n"
+                 "                # might not exist if a client showed up and asked us to\n"
+                 "                # truncate a share we weren't even holding.\n")
+EWV_BODY = (
+    "        remaining_shares = {}\n\n" + SIZE_COMMENT + SIZE_CHECK + "\n"
+    "        for sharenum in test_and_write_vectors:\n"
+    "            (testv, datav, new_length) = test_and_write_vectors[sharenum]\n"
+    "            if new_length == 0:\n"
+    "                if sharenum in shares:\n"
+    "                    shares[sharenum].unlink()\n"
+    "            else:\n"
+    "                if sharenum not in shares:\n"
+    "                    # allocate a new share\n"
+    "                    share = self._allocate_slot_share(bucketdir, secrets,\n"
+    "                                                      sharenum,\n"
+    "                                                      owner_num=0)\n"
+    "                    shares[sharenum] = share\n"
+    "                shares[sharenum].writev(datav, new_length)\n"
+    "                remaining_shares[sharenum] = shares[sharenum]\n"
+    "\n"
+    "            if new_length == 0:\n" + RMDIR_COMMENT +
+    "                if os.path.exists(bucketdir) and [] == os.listdir(bucketdir):\n"
+    "                    os.rmdir(bucketdir)\n"
+    "        return remaining_shares\n")
+ALLOC = (
+    "    def _allocate_slot_share(self, bucketdir, secrets, sharenum,\n"
+    "                             owner_num=0):\n"
+    "        (write_enabler, renew_secret, cancel_secret) = secrets\n"
+    "        my_nodeid = self.my_nodeid\n"
+    "        fileutil.make_dirs(bucketdir)\n"
+    "        filename = os.path.join(bucketdir, \"%d\" % sharenum)\n"
+    "        share = create_mutable_sharefile(filename, my_nodeid, write_enabler,\n"
+    "                                         self)\n"
+    "        return share\n")
+ALLOC_TIDY = (
+    "    def _allocate_slot_share(self, bucketdir, sharenum, write_enabler):\n"
+    "        filename = os.path.join(bucketdir, \"%d\" % sharenum)\n"
+    "        return create_mutable_sharefile(\n"
+    "            filename, self.my_nodeid, write_enabler, self,\n"
+    "        )\n")
+ANY_SIZE_CHECK = (
+    "        if any(\n"
+    "                offset + len(data) > MutableShareFile.MAX_SIZE\n"
+    "                for (_, datav, _) in test_and_write_vectors.values()\n"
+    "                for (offset, data) in datav\n"
+    "        ):\n"
+    "            raise DataTooLargeError()\n")
+NOT_ALL_SIZE_CHECK = (
+    "        if not all([offset + len(data) <= MutableShareFile.MAX_SIZE\n"
+    "                    for sharenum, (testv, datav, new_length) in test_and_write_vectors.items()\n"
+    "                    for (offset, data) in datav]):\n"
+    "            raise DataTooLargeError()\n")
+
+
+def ewv_tidy(rmdir_in_loop, make_dirs="hoisted", size_check=ANY_SIZE_CHECK, writev_args="datav, new_length"):
+    """_evaluate_write_vectors after the tidy-up of seeded C24-I.  rmdir_in_loop=True with the hoisted make_dirs is the
+    patch as delivered (the slip breaks C24, not the byte-array behaviour); rmdir behind the loop / make_dirs next to each
+    allocation are the faithful forms."""
+    def rmdir(ind):
+        return (ind + "if os.path.exists(bucketdir) and [] == os.listdir(bucketdir):\n" + ind + "    os.rmdir(bucketdir)\n")
+    hoist = ("        if any(\n"
+             "                new_length != 0 and sharenum not in shares\n"
+             "                for sharenum, (_, _, new_length) in test_and_write_vectors.items()\n"
+             "        ):\n"
+             "            fileutil.make_dirs(bucketdir)\n\n") if make_dirs == "hoisted" else ""
+    return ("        (write_enabler, _, _) = secrets\n\n" + SIZE_COMMENT + size_check + "\n" + hoist +
+            "        remaining_shares = {}\n"
+            "        for sharenum, (_, datav, new_length) in test_and_write_vectors.items():\n"
+            "            if new_length == 0:\n"
+            "                if sharenum in shares:\n"
+            "                    shares[sharenum].unlink()\n" +
+            (rmdir("                ") if rmdir_in_loop else "") +
+            "                continue\n\n"
+            "            if sharenum not in shares:\n" +
+            ("                fileutil.make_dirs(bucketdir)\n" if make_dirs == "in-loop" else "") +
+            "                shares[sharenum] = self._allocate_slot_share(\n"
+            "                    bucketdir, sharenum, write_enabler,\n"
+            "                )\n"
+            "            shares[sharenum].writev(%s)\n" % writev_args +
+            "            remaining_shares[sharenum] = shares[sharenum]\n" +
+            ("" if rmdir_in_loop else rmdir("        ")) +
+            "        return remaining_shares\n")
+
+
+# ---- seeded C29-I (a slip of ANOTHER property): _change_container_size moves the extra-lease block in two pieces - the
+# count it already read through _read_num_extra_leases and the records read by a new helper _read_extra_lease_records
+CCS_DEF = "    def _change_container_size(self, f, new_container_size):\n"
+CCS_READ = ("        f.seek(old_extra_lease_offset)\n"
+            "        leases_size = 4 + num_extra_leases * self.LEASE_SIZE\n"
+            "        extra_lease_data = f.read(leases_size)\n")
+CCS_BACK = ("        f.seek(new_extra_lease_offset)\n"
+            "        f.write(extra_lease_data)\n"
+            "        self._write_extra_lease_offset(f, new_extra_lease_offset)\n")
+REC_HELPER = ("    def _read_extra_lease_records(self, f):\n"
+              "        extra_lease_offset = self._read_extra_lease_offset(f)\n"
+              "        num_extra_leases = self._read_num_extra_leases(f)\n"
+              "        f.seek(extra_lease_offset + 4)\n"
+              "        return f.read(num_extra_leases * self.LEASE_SIZE)\n\n")
+BACK_FAITHFUL = ("        f.seek(new_extra_lease_offset)\n"
+                 "        f.write(struct.pack(\">L\", num_extra_leases))\n"
+                 "        f.write(lease_records)\n"
+                 "        self._write_extra_lease_offset(f, new_extra_lease_offset)\n")
+BACK_SLIP = ("        self._write_extra_lease_offset(f, new_extra_lease_offset)\n"
+             "        self._write_num_extra_leases(f, num_extra_leases)\n"
+             "        f.write(lease_records)\n")
+
+
+def ccs_pieces(expect, helper=REC_HELPER, back=BACK_FAITHFUL, zero="4 + len(lease_records)", note=None, id_=None):
+    return M(id_, MUT, CCS_DEF, helper + CCS_DEF, expect, note=note,
+             edits=[(MUT, CCS_READ, "        lease_records = self._read_extra_lease_records(f)\n"),
+                    (MUT, "        f.write(b'\\x00' * leases_size)\n", "        f.write(b'\\x00' * (%s))\n" % zero),
+                    (MUT, CCS_BACK, back)])
+
+
 MUTANTS = [
+    # ---- seeded C29-I: the lease block moved as count + records (helper followed, consecutive writes add up)
+    ccs_pieces(None, id_="benign-lease-block-moved-in-two-pieces",
+               note="the refactor of seeded C29-I done faithfully: count and records are written at the new place first, the header "
+                    "offset last; C23.2 used to report both writes, the zero fill size and a missing write-back, C23.6 the third write"),
+    ccs_pieces(None, id_="benign-lease-block-two-pieces-zero-size-spelt-out", zero="4 + num_extra_leases * self.LEASE_SIZE"),
+    ccs_pieces(["C23.2", "C23.6"], back=BACK_SLIP, id_="lease-block-rebuilt-through-count-accessor",
+               note="seeded C29-I as delivered: _write_num_extra_leases, a lease writer, becomes reachable from writev (clause 6) and "
+                    "the place of the records write is decided by a helper the rule does not follow"),
+    ccs_pieces("C23.2", helper=REC_HELPER.replace("f.seek(extra_lease_offset + 4)", "f.seek(extra_lease_offset)"),
+               id_="two-pieces-records-read-from-block-start",
+               note="the records are read 4 bytes too early: every extra lease is shifted after the container grew"),
+    ccs_pieces("C23.2", helper=REC_HELPER.replace("num_extra_leases * self.LEASE_SIZE", "(num_extra_leases - 1) * self.LEASE_SIZE"),
+               id_="two-pieces-last-record-not-read"),
+    ccs_pieces("C23.2", back=BACK_FAITHFUL.replace("        f.write(struct.pack(\">L\", num_extra_leases))\n        f.write(lease_records)\n",
+                                                    "        f.write(lease_records)\n        f.write(struct.pack(\">L\", num_extra_leases))\n"),
+               id_="two-pieces-count-behind-records"),
+    ccs_pieces("C23.2", back=BACK_FAITHFUL.replace("\">L\"", "\">Q\""), id_="two-pieces-count-packed-as-8-bytes"),
+    ccs_pieces("C23.2", back=BACK_FAITHFUL.replace("        f.write(struct.pack(\">L\", num_extra_leases))\n", ""),
+               id_="two-pieces-count-not-written-back"),
+    ccs_pieces("C23.2", back=BACK_FAITHFUL.replace("        f.write(lease_records)\n", ""), zero="4",
+               id_="two-pieces-records-not-written-back", note="the count survives, the lease records are dropped"),
+    ccs_pieces("C23.2", back=BACK_FAITHFUL.replace("        f.write(lease_records)\n", "        f.flush()\n        f.seek(new_extra_lease_offset)\n        f.write(lease_records)\n"),
+               id_="two-pieces-records-overwrite-count"),
+    ccs_pieces("C23.2", back=BACK_FAITHFUL.replace("struct.pack(\">L\", num_extra_leases)", "struct.pack(\">L\", 0)"),
+               id_="two-pieces-count-reset", note="the extra leases are forgotten when the container grows"),
+    M("two-pieces-truncate-in-container-growth", MUT, "        f.write(extra_lease_data)\n", "        f.write(extra_lease_data)\n        f.truncate()\n", "C23.6"),
+    # ---- seeded C24-I: the tidied write stage (any() pre-check read as the loops it abbreviates)
+    M("benign-tidy-up-rmdir-after-loop", SRV, EWV_BODY, ewv_tidy(False), None, edits=[(SRV, ALLOC, ALLOC_TIDY)],
+      note="the refactor of seeded C24-I done faithfully; C23.8 used to report the any() refusal as unguarded"),
+    M("benign-tidy-up-make-dirs-per-allocation", SRV, EWV_BODY, ewv_tidy(True, make_dirs="in-loop"), None,
+      edits=[(SRV, ALLOC, ALLOC_TIDY)]),
+    M("benign-tidy-up-as-delivered", SRV, EWV_BODY, ewv_tidy(True), None, edits=[(SRV, ALLOC, ALLOC_TIDY)],
+      note="seeded C24-I as delivered: the slip (directory removed inside the loop after the hoisted make_dirs) is C24's; "
+           "which shares remain / whether the directory exists is undecided here"),
+    M("benign-size-check-any", SRV, SIZE_CHECK, ANY_SIZE_CHECK, None),
+    M("benign-size-check-not-all-listcomp", SRV, SIZE_CHECK, NOT_ALL_SIZE_CHECK, None),
+    M("any-size-check-negated", SRV, SIZE_CHECK, ANY_SIZE_CHECK.replace("offset + len(data) > Mut", "offset + len(data) <= Mut"), "C23.8",
+      note="every request with a write of legal size is refused"),
+    M("not-all-size-check-negated", SRV, SIZE_CHECK, NOT_ALL_SIZE_CHECK.replace("<= Mut", "> Mut"), "C23.8"),
+    M("tidy-up-any-size-check-compares-share-count", SRV, EWV_BODY,
+      ewv_tidy(False, size_check=ANY_SIZE_CHECK.replace("offset + len(data) > Mut", "offset + len(data) > len(datav) or offset > Mut")),
+      "C23.8", edits=[(SRV, ALLOC, ALLOC_TIDY)],
+      note="in the tidied shape: the refusal is also reached over a disjunct that says nothing about MAX_SIZE"),
+    M("all-size-check-is-universal", SRV, SIZE_CHECK, ANY_SIZE_CHECK.replace("if any(", "if all("), "C23.8",
+      note="`if all(..): raise` also refuses the request without writes (all() of nothing): not the loop form, the raise has no size guard"),
+    M("tidy-up-writev-without-new-length", SRV, EWV_BODY, ewv_tidy(False, writev_args="datav, None"), "C23.5",
+      edits=[(SRV, ALLOC, ALLOC_TIDY)], note="the deletion/write rule still reads the tidied loop"),
     # ---- C23.1 zero fill / length update / data write
     M("zero-fill-dropped", MUT, ZERO_BLOCK, "", "C23.1"),
     M("zero-fill-wrong-start", MUT, "                f.seek(self.DATA_OFFSET+data_length)\n",
